@@ -598,6 +598,24 @@ def _edge_specs(game):
     out.append(("edge_int_typed", dict(std_spec(game, **small), dtype="int")))
     out.append(("edge_all_labels", std_spec(game, **small, labels=dict(hits="rev", holds="after", bpms="gappy", svs="mask", samples="gappy", mines="rev", rolls="gappy", fakes="mask", lifts="after",
                                                                       keysounds="gappy"))))
+    # dimension 15: the same chart in the dtype states the library itself leaves behind (rate() and a stack edit re-type integer / bool columns)
+    out.append(("edge_state_after_rate", dict(std_spec(game, **small), pre=[["rate", 1.0]])))
+    out.append(("edge_state_after_stack_edit", dict(std_spec(game, **small), pre=[["stack_edit"]])))
+    # dimension 17: which KIND of object is first / last: a tempo point after the last note, the first SV / sample / mine before the first note
+    # and on the first tempo point, the last SV after the last note; (osu, qua: times in ms, no grid) an SV, a sample and a note BEFORE the first tempo point
+    ko = dict(hits=[(1000, f), (1250, 1 + f), (2000, 2)], holds=[(1500, 3, 250)], bpms=[(0, 120), (1750, 90), (3000, 180)])
+    if sv:
+        ko["svs"] = [(0, 2.0), (500, 0.5), (2500, 1.5)]
+    if game == "osu":
+        ko["samples"] = [(250, "a.wav", 40), (2750, "b.wav", 50)]
+    if game == "sm":
+        ko.update(mines=[(500, 1), (2500, 2)], stops=[(250, 125), (2750, 250)])
+    out.append(("edge_kind_order", std_spec(game, **ko)))
+    if sv:
+        kb = dict(hits=[(-250, 0), (1250, 1), (2000, 2)], holds=[(1500, 3, 250)], bpms=[(0, 120), (1750, 90)], svs=[(-500, 2.0), (1000, 0.5)])
+        if game == "osu":
+            kb["samples"] = [(-750, "a.wav", 40), (100, "b.wav", 50)]
+        out.append(("edge_objects_before_first_tempo", std_spec(game, **kb)))
     if game == "osu":
         # two notes at one time with different volumes of their own, where the other chart of hitsound_copy has ONE sound (at 500 ms)
         out.append(("edge_hitsound_tied_target", std_spec("osu", hits=[(0, 0), (500, 3), (500, 1), (1000, 2)], holds=[(2000, 1, 100)], bpms=[(0, 120)])))
@@ -783,7 +801,10 @@ def _c15_game(rep, game):
             seen_modes[(single, hist)] = k + 1
             keyed.append(((single, k, 2.5 if case.get("again") else _HISTORY_PRIORITY.get(case["mode"], 9)), len(keyed), case))
         keyed.sort(key=lambda x: (x[0], x[1]))
-        plan.append((label, [c for _, _, c in keyed]))
+        ordered = [c for _, _, c in keyed]
+        if quick and (label.startswith("edge_state_") or label in ("edge_kind_order", "edge_objects_before_first_tempo")):
+            ordered = ordered[:3]  # quick tier: the dtype-state / kind-order charts take the first three histories only, so that the other charts keep their share of the time budget
+        plan.append((label, ordered))
     # round robin over the charts: a time budget on a busy machine thins every chart's cases instead of dropping whole charts
     for r in range(max(len(c) for _, c in plan)):
         for label, cases in plan:
@@ -809,7 +830,7 @@ def _c15_game(rep, game):
     n_edge = len(_edge_specs(game))
     rep.bound = (f"{game}: {len(_specs(game))} fixed charts + {n_edge} edge charts + {rep.n(3, 16)} random small and {rep.n(1, 8)} random larger charts (tempo witness, small with all lists,{' two holds in one column,' if game == 'bms' else ''} gappy / filtered labels, empty lists, a larger one"
                  f"{', notes with and without hitsounds of their own' if game == 'osu' else ''}; edge: no hits at all; times shared across lists (notes, hold heads and tails, SVs on tempo changes and at time 0{'' if game in ('bms', 'sm') else ', a hold of length 0'}); "
-                 f"sub-ms and x.5 times with non-integer tempos; int-typed time columns; non-default row labels on every list{'; negative and far (20 min) times' if game in ('osu', 'qua') else ''}"
+                 f"sub-ms and x.5 times with non-integer tempos; int-typed time columns; the chart as an earlier rate(1) / a stack edit leaves it (re-typed columns); which kind of object is first / last (tempo point after the last note, SV / sample / mine / stop before the first note and after the last{', SV + sample + note BEFORE the first tempo point' if game in ('osu', 'qua') else ''}); non-default row labels on every list{'; negative and far (20 min) times' if game in ('osu', 'qua') else ''}"
                  f"{'; two notes at one time with different volumes of their own where hitsound_copy has one sound to place (clause hitsound_copy_volume_of_tied_target_notes)' if game == 'osu' else ''}"
                  f"{'; the chart in the middle of a 3-chart set between a chart without holds and a chart without hits' if game in ('sm', 'o2j') else ''}; random charts: 35% with non-default labels on a random subset of all lists, 25% int-typed); "
                  f"per chart: reverse sort; for charts with <= 4 rows per list ALL permutations of each list on its own{' (fixed charts)' if quick else ''} "
